@@ -63,6 +63,28 @@ def _class_list(program, module, node):
     return out
 
 
+def _resolve_list(P, fi, node, depth=0):
+    """the list / tuple display an expression denotes: the display itself, or a name bound once to one in the function, its
+    class or its module"""
+    if isinstance(node, (ast.List, ast.Tuple)):
+        return node
+    if depth > 3:
+        return None
+    if isinstance(node, ast.Name):
+        binds = [n.value for n in ast.walk(fi.node) if isinstance(n, ast.Assign) and len(n.targets) == 1
+                 and isinstance(n.targets[0], ast.Name) and n.targets[0].id == node.id]
+        if len(binds) == 1:
+            return _resolve_list(P, fi, binds[0], depth + 1)
+        if not binds and node.id in fi.module.assigns:
+            return _resolve_list(P, fi, fi.module.assigns[node.id], depth + 1)
+    if isinstance(node, ast.Attribute) and isinstance(node.value, ast.Name) and fi.cls is not None \
+            and node.value.id in ("self", "cls", fi.cls.name):
+        for c in P.mro(fi.cls):
+            if node.attr in c.class_attrs:
+                return _resolve_list(P, fi, c.class_attrs[node.attr], depth + 1)
+    return None
+
+
 def registries(ctx):
     P = ctx.program
     fj = P.func(PLOG + ".from_json")
@@ -70,13 +92,24 @@ def registries(ctx):
     pos = a.posonlyargs + a.args
     r1 = None
     for prm, d in zip(pos[len(pos) - len(a.defaults):], a.defaults):
-        if prm.arg == "class_map" and isinstance(d, (ast.List, ast.Tuple)):
-            r1 = _class_list(P, fj.module, d)
+        if prm.arg == "class_map":
+            lst = _resolve_list(P, fj, d)
+            if lst is not None:
+                r1 = _class_list(P, fj.module, lst)
     sj = P.func(CC + ".StingyConfigurator.from_json")
     r2 = None
+    # the class list the configurator hands to plog.from_json (class_map=...), wherever it is bound
     for n in ast.walk(sj.node):
-        if isinstance(n, ast.Assign) and isinstance(n.value, (ast.List, ast.Tuple)) and len(n.value.elts) >= 5:
-            r2 = _class_list(P, sj.module, n.value)
+        if isinstance(n, ast.Call):
+            for k in n.keywords:
+                if k.arg == "class_map":
+                    lst = _resolve_list(P, sj, k.value)
+                    if lst is not None:
+                        r2 = _class_list(P, sj.module, lst)
+    if r2 is None:
+        for n in ast.walk(sj.node):
+            if isinstance(n, ast.Assign) and isinstance(n.value, (ast.List, ast.Tuple)) and len(n.value.elts) >= 5:
+                r2 = _class_list(P, sj.module, n.value)
     if r1 is None or r2 is None:
         raise AnalysisError("JSON class registries not found (plog.from_json default class_map / StingyConfigurator.from_json list)")
     return r1, r2
